@@ -119,6 +119,9 @@ func gen(r *sim.Rng, tier string) *sim.Case {
 	for _, s := range []string{"Iter", "Range", "All"} {
 		c.Ops = append(c.Ops, sim.Op{Op: "Enum", S: s})
 	}
+	if r.Pct(25) {
+		c.Ops = append(c.Ops, sim.Op{Op: "Enum", S: "IterPair"})
+	}
 	if r.Pct(20) {
 		c.Params["twin"] = 1 // a second bitmap is used alternately
 	}
@@ -298,6 +301,21 @@ func exec(c *sim.Case, out *sim.WorkerOut) (*sim.Violation, bool) {
 					v = mism("Len", "op %d after %s: Len() = %d, cardinality %d", idx, op.Op, n, len(md))
 				}
 			case "Enum":
+				if op.S == "IterPair" {
+					// two iterators alive at once, advanced alternately (a merge join): over the
+					// twin and the first bitmap if there is a twin, else both over the first
+					other, oimg := &rb, md
+					if twin {
+						oimg = make(map[uint32]struct{}, len(md))
+						for x := range md {
+							oimg[x^twinMask] = struct{}{}
+						}
+						other = &tw
+					}
+					v = iterPair(&rb, other, md, oimg, idx)
+					probes["two_iterators_advanced_alternately"]++
+					return
+				}
 				v = enum(&rb, md, op, idx, probes)
 				if v == nil && twin {
 					img := make(map[uint32]struct{}, len(md))
@@ -340,7 +358,60 @@ func exec(c *sim.Case, out *sim.WorkerOut) (*sim.Violation, bool) {
 	return nil, smrand.Words >= 2 && (c.P("dist") != 0 || len(probes) > 0)
 }
 
+func sortedSet(md map[uint32]struct{}) []uint32 {
+	want := make([]uint32, 0, len(md))
+	for x := range md {
+		want = append(want, x)
+	}
+	sort.Slice(want, func(a, b int) bool { return want[a] < want[b] })
+	return want
+}
+
+func iterPair(a, b *setz.RoaringBitmap, ma, mb map[uint32]struct{}, idx int) *sim.Violation {
+	wa, wb := sortedSet(ma), sortedSet(mb)
+	ia, ib := a.Iter(), b.Iter()
+	var ga, gb []uint32
+	da, db := false, false
+	for step := 0; !(da && db) && step < 2*(len(wa)+len(wb))+16; step++ {
+		// a takes two steps for every step of b, so that the cursors sit in different buckets
+		if !da && step%3 != 2 {
+			if ia.Next() {
+				ga = append(ga, ia.Value())
+			} else {
+				da = true
+			}
+		} else if !db {
+			if ib.Next() {
+				gb = append(gb, ib.Value())
+			} else {
+				db = true
+			}
+		} else if !da {
+			if ia.Next() {
+				ga = append(ga, ia.Value())
+			} else {
+				da = true
+			}
+		}
+	}
+	for k, pr := range [][2][]uint32{{ga, wa}, {gb, wb}} {
+		got, want := pr[0], pr[1]
+		if len(got) != len(want) {
+			return &sim.Violation{Class: "enumeration_incomplete:Iter", Site: name + ".Iter", Detail: fmt.Sprintf("op %d, two iterators advanced alternately: iterator %d produced %d values, the set has %d members", idx, k+1, len(got), len(want))}
+		}
+		for i := range got {
+			if got[i] != want[i] {
+				return &sim.Violation{Class: "model_mismatch:Iter", Site: name + ".Iter", Detail: fmt.Sprintf("op %d, two iterators advanced alternately: iterator %d produced %#x at position %d, expected %#x", idx, k+1, got[i], i, want[i])}
+			}
+		}
+	}
+	return nil
+}
+
 func siteOf(op sim.Op) string {
+	if op.Op == "Enum" && op.S == "IterPair" {
+		return "Iter"
+	}
 	switch op.Op {
 	case "AddRun":
 		return "Add"
